@@ -122,23 +122,29 @@ def effName (isNew : Bool) (l : Leaf) : String :=
   | .name t => pascalS t
   | _ => twinName isNew l.decl.name
 
-def takesPart (t : Tree) (l : Leaf) : Bool := visible t l && l.decl.tag != .skip
+/-- the leaf lies inside an embedded struct that is tagged `map:"-"` -/
+def underSkipped (sk : List (List String)) (l : Leaf) : Bool := sk.any (fun p => p.isPrefixOf l.path)
+
+/-- a leaf takes part when Go selects it by its bare name and neither it nor an embedded struct it lies in is tagged
+    `map:"-"` (a left-out field or embedded struct still hides deeper fields of the same name: `visible` is Go's rule) -/
+def takesPart (t : Tree) (sk : List (List String)) (l : Leaf) : Bool :=
+  visible t l && l.decl.tag != .skip && !underSkipped sk l
 
 /-- candidates for a destination leaf in ToX -/
 def candsTo (inp : Input) (d : Leaf) : List (Leaf × Strat) :=
   -- a field the user's manual write hook assigns is the hook's business
-  if !(takesPart inp.dest d && writable inp.dest inp.destNew d) || inp.manualW.contains d.decl.name then [] else
+  if !(takesPart inp.dest inp.destSkipEmbeds d && writable inp.dest inp.destNew d) || inp.manualW.contains d.decl.name then [] else
   (leavesOf inp.src).filterMap (fun s =>
-    if takesPart inp.src s && readable inp.srcNew s &&
+    if takesPart inp.src inp.srcSkipEmbeds s && readable inp.srcNew s &&
        specNameMatch inp.ic (effName inp.srcNew s) (twinName inp.destNew d.decl.name) then
       (specStrategy inp .src .dest s.decl.ty d.decl.ty).map (fun st => (s, st))
     else none)
 
 /-- candidates for a source leaf in FromX -/
 def candsFrom (inp : Input) (s : Leaf) : List (Leaf × Strat) :=
-  if !(takesPart inp.src s && writable inp.src inp.srcNew s) || inp.manualR.contains s.decl.name then [] else
+  if !(takesPart inp.src inp.srcSkipEmbeds s && writable inp.src inp.srcNew s) || inp.manualR.contains s.decl.name then [] else
   (leavesOf inp.dest).filterMap (fun d =>
-    if takesPart inp.dest d && readable inp.destNew d &&
+    if takesPart inp.dest inp.destSkipEmbeds d && readable inp.destNew d &&
        specNameMatch inp.ic (effName inp.srcNew s) (twinName inp.destNew d.decl.name) then
       (specStrategy inp .dest .src d.decl.ty s.decl.ty).map (fun st => (d, st))
     else none)
@@ -211,14 +217,18 @@ def obs05 (inp : Input) : List (String × String) :=
     ++ (if fromGen inp then
           let o := execFrom inp []
           match o with
-          | .value _ => (leavesOf inp.src).map (fun l => ("from:" ++ joinPath l.path, obsLeaf o l))
-          | _ => [("from:panic", "true")]
+          | .value _ => (leavesOf inp.src).map (fun l => ("from:" ++ joinPath l.path, obsLeaf o l)) ++
+              [("from:recv", if fromWritesReceiver inp then "receiver" else "returned-another-pointer"),
+               ("from:reuse", if fromWritesReceiver inp then "receiver" else "returned-another-pointer")]
+          | _ => [("from:panic", "true"), ("from:recv", "panic"), ("from:reuse", "panic")]
         else [])
 
 def spec05 (inp : Input) : List (String × String) :=
   [("compile", "ok"), ("to:present", toString (toGen inp)), ("from:present", toString (fromGen inp))]
     ++ (if toGen inp then (leavesOf inp.dest).filterMap (fun l => (optV (specTo inp l)).map (fun v => ("to:" ++ joinPath l.path, v))) else [])
-    ++ (if fromGen inp then (leavesOf inp.src).filterMap (fun l => (optV (specFrom inp l)).map (fun v => ("from:" ++ joinPath l.path, v))) else [])
+    ++ (if fromGen inp then (leavesOf inp.src).filterMap (fun l => (optV (specFrom inp l)).map (fun v => ("from:" ++ joinPath l.path, v)))
+          -- "reads from X, then writes back to receiver and returns it": for a fresh and for a reused receiver
+          ++ [("from:recv", "receiver"), ("from:reuse", "receiver")] else [])
 
 /-! ## Round trip: FromX (ToX v) -/
 
@@ -357,6 +367,12 @@ def F_skipShadow (inp : Input) : Bool :=
     (leavesOf t).any (fun m => m.depth > l.depth && m.decl.name == l.decl.name))
   f inp.src || f inp.dest
 
+/-- F_embedSkip: `map:"-"` on an EMBEDDED struct is not read — its promoted fields are mapped all the same
+    (only the embedded Mapper type honours the tag, loadTypeMapperPkg) -/
+def F_embedSkip (inp : Input) : Bool :=
+  (leavesOf inp.src).any (fun l => underSkipped inp.srcSkipEmbeds l && visible inp.src l && isExported l.decl.name && l.decl.tag != .skip) ||
+  (leavesOf inp.dest).any (fun l => underSkipped inp.destSkipEmbeds l && visible inp.dest l && isExported l.decl.name && l.decl.tag != .skip)
+
 def namesOk (inp : Input) : Bool :=
   (allNames inp.src ++ allNames inp.dest).all noUnderscore
 
@@ -369,6 +385,7 @@ def region05 (inp : Input) : String :=
   if !grammarOk inp || inp.srcNew || inp.destNew || inp.mapperPtr == some true then "Out"
   else if !namesOk05 inp || tagAmbiguous inp.src then "Out"
   else if F_skipShadow inp then "F_skipShadow"
+  else if F_embedSkip inp then "F_embedSkip"
   else if F_multiMatch inp then "F_multiMatch"
   else if !uniquePairs inp then "WFa"
   else "WF"
@@ -636,7 +653,7 @@ def F_ptrEmbedSetter (inp : Input) : Bool :=
 
 def region15 (inp : Input) : String :=
   if !grammarOk inp || !(inp.srcNew || inp.destNew) || !namesOk inp then "Out"
-  else if tagAmbiguous inp.src || F_skipShadow inp then "Out"
+  else if tagAmbiguous inp.src || F_skipShadow inp || F_embedSkip inp then "Out"
   else if !modelCompiles inp then "Out"
   else if F_ptrEmbedSetter inp then "F_ptrEmbedSetter"
   else if F_skipTagNew inp then "F_skipTagNew"
